@@ -20,6 +20,7 @@ class Recorder:
     def __init__(self):
         self.conversions = []     # dicts: file, code, nodes, result
         self.stack_calls = []     # dicts: tb, full_tb, map, conv_file, result
+        self.events = []          # in order: ('attach', dict with pass_through, stack-call index or None, tb, map) / ('rethrow', dict)
 
 
 REC = Recorder()
@@ -65,6 +66,34 @@ def install():
             pass
         return res
 
+    from malt.impl import api
+    orig_attach = api._attach_error_metadata
+    orig_toexc = error_utils.ErrorMetadataBase.to_exception
+
+    def attach(e, f):
+        n0 = len(REC.stack_calls)
+        try:
+            ev = {'pass_through': hasattr(e, 'ag_pass_through'), 'had_md': hasattr(e, 'ag_error_metadata'),
+                  'full_tb': [tuple(fr) for fr in traceback.extract_tb(sys.exc_info()[2])], 'map': getattr(f, 'ag_source_map', None)}
+        except Exception:
+            ev = {}
+        try:
+            return orig_attach(e, f)
+        finally:
+            ev['stack_call'] = n0 if len(REC.stack_calls) > n0 else None
+            REC.events.append(('attach', ev))
+
+    def to_exception(self, source_error):
+        exc = orig_toexc(self, source_error)
+        try:
+            REC.events.append(('rethrow', {'sets_pass_through': hasattr(exc, 'ag_pass_through'), 'type': type(exc),
+                                           'same_md': getattr(exc, 'ag_error_metadata', None) is self}))
+        except Exception:
+            pass
+        return exc
+
+    api._attach_error_metadata = attach
+    error_utils.ErrorMetadataBase.to_exception = to_exception
     origin_info.create_source_map = csm
     error_utils._stack_trace_inside_mapped_code = stack
     _installed['x'] = True
@@ -204,12 +233,15 @@ def expected_same(T, facts):
 
 
 def created_kind(T0, e1):
+    return kind_of_type(T0, type(e1), isinstance(e1, KeyError))
+
+
+def kind_of_type(T0, T1, is_keyerror=True):
     from malt.impl import api
     from malt.pyct import error_utils
-    T1 = type(e1)
     if T1 is T0:
         return 'same'
-    if T1 is error_utils.MultilineMessageKeyError and T0 is KeyError and T1.__name__ == 'KeyError' and isinstance(e1, KeyError):
+    if T1 is error_utils.MultilineMessageKeyError and T0 is KeyError and T1.__name__ == 'KeyError' and is_keyerror:
         return 'keyerror'
     if T1 is api.StagingError:
         return 'staging'
@@ -283,6 +315,40 @@ class SourceView:
         return out
 
 
+def _scope_name(code):
+    try:
+        tree = ast.parse(code)
+    except SyntaxError:
+        return None
+    for node in ast.walk(tree):
+        if isinstance(node, ast.Call) and isinstance(node.func, ast.Attribute) and node.func.attr == 'FunctionScope' \
+                and node.args and isinstance(node.args[0], ast.Constant) and isinstance(node.args[0].value, str):
+            return node.args[0].value
+    return None
+
+
+def _wrapped_entity_on_path(mod, names):
+    """Is one of the converted functions on the call path a function object carrying `__wrapped__`
+    (functools.wraps / update_wrapper)?  Class predicate of known finding C12-wrapped-entity-origin-shift."""
+    import inspect
+    seen, stack = set(), list(vars(mod).values())
+    while stack:
+        v = stack.pop()
+        if id(v) in seen:
+            continue
+        seen.add(id(v))
+        if inspect.isfunction(v):
+            if hasattr(v, '__wrapped__') and v.__code__.co_name in names:
+                return True
+            stack.append(getattr(v, '__wrapped__', None))
+            for cell in (v.__closure__ or ()):
+                try:
+                    stack.append(cell.cell_contents)
+                except ValueError:
+                    pass
+    return False
+
+
 def _root_from_code(code, sv):
     try:
         tree = ast.parse(code)
@@ -310,7 +376,7 @@ def expected_units(U0, fn_conv, toplevel):
         elif fn in toplevel or not units:
             # a module-level helper the case does not name (the method of the 'method' link): it runs the way the
             # chain function it forwards to does
-            nxt = next((fn_conv[f] for f, _ in U0[i + 1:] if f in fn_conv), cur)
+            nxt = next((fn_conv[f] for f, _ in U0[i + 1:] if f in fn_conv), fn_conv.get('*below-leaf*', cur))
             units.append({'frames': [(fn, line)], 'conv': bool(nxt)})
         else:
             units[-1]['frames'].append((fn, line))
@@ -335,6 +401,7 @@ def run_case(built, path, modname, convert_kwargs=None):
     install()
     REC.conversions.clear()
     REC.stack_calls.clear()
+    REC.events.clear()
     mod = load_module(built['src'], path, modname)
     f = getattr(mod, built['entry'])
     args = built['args']
@@ -347,6 +414,19 @@ def run_case(built, path, modname, convert_kwargs=None):
                        'frames': user_frames(e.__traceback__, path)}
     REC.conversions.clear()
     REC.stack_calls.clear()
+    REC.events.clear()
+    # separately converted callees: rebound for the converted run only (the reference run above used the plain functions)
+    for gname, fname, how in built.get('wraps') or []:
+        target = getattr(mod, fname)
+        if how == 'tograph':
+            try:
+                setattr(mod, gname, malt.to_graph(target))
+            except Exception:     # to_graph raises when the function cannot be converted at all (C01's domain)
+                obs['rebind_failed'] = fname
+                obs['conv'] = None; obs['conversions'] = []; obs['stack_calls'] = []; obs['events'] = []; obs['module'] = mod
+                return obs
+        else:
+            setattr(mod, gname, malt.convert(recursive=(how != 'wrapped-nonrec'), optional_features=None)(target))
     kw = dict(recursive=bool(built.get('recursive', True)), optional_features=None)
     kw.update(convert_kwargs or {})
     w = malt.convert(**kw)(f)
@@ -361,11 +441,12 @@ def run_case(built, path, modname, convert_kwargs=None):
                        'cause_message': None if md is None else md.cause_message}
     obs['conversions'] = list(REC.conversions)
     obs['stack_calls'] = list(REC.stack_calls)
+    obs['events'] = list(REC.events)
     obs['module'] = mod
     return obs
 
 
-def py_classes(levels):
+def py_classes(levels, all_gen=()):
     """Python mirror of the Lean class predicates (used only when the driver is unavailable, and compared
     with the driver's answer otherwise). levels: innermost first, dicts gen_file, map (dict), tb."""
     gens = [l['gen_file'] for l in levels]
@@ -377,7 +458,9 @@ def py_classes(levels):
             if (f[0], f[1]) in l['keys']:
                 lam = lam or f[2] == '<lambda>'
                 break
-    return [reentered, hit, lam]
+    gens_set = set(gens)
+    unwrapped = any(f[0] in all_gen and f[0] not in gens_set for l in levels for f in l['tb'])
+    return [reentered, hit, lam, unwrapped]
 
 
 def analyse_case(built, path, modname, want_corr=True):
@@ -401,6 +484,10 @@ def _analyse(built, path, obs, out, want_corr):
     if o is None:
         out['status'] = 'orig-no-exception'
         return out
+    if obs.get('rebind_failed'):
+        out['status'] = 'callee-not-converted'
+        out['detail'] = obs['rebind_failed']
+        return out
     if c is None:
         out['status'] = 'ok'
         out['fails'].append({'what': 'converted function returned normally where the original raises %s' % o['type_name'],
@@ -422,6 +509,11 @@ def _analyse(built, path, obs, out, want_corr):
             cv['root'] = _root_from_code(cv['code'], sv)
         conv_roots[cv['root']] = cv
     conv_names = set(r.split('@')[0] for r in conv_roots if r)
+    for cv in convs:          # plus the name the generated code itself records (closures are not module-level functions)
+        nm = _scope_name(cv['code'])
+        if nm:
+            conv_names.add(nm)
+    wrapped_path = _wrapped_entity_on_path(obs['module'], set(n for n, _ in o['frames']) & conv_names)
     if built['entry'] not in conv_names:
         out['status'] = 'entry-not-converted'      # conversion failed and malt fell back to the original (C01's domain)
         return out
@@ -459,7 +551,13 @@ def _analyse(built, path, obs, out, want_corr):
     kind = created_kind(T0, c['exc'])
     want = expected_same(T0, facts)
     ok_type = (kind in ('same', 'keyerror')) if want is True else (kind == 'staging') if want is False else kind in ('same', 'keyerror', 'staging')
-    if not ok_type:
+    events = obs.get('events') or []
+    n_rethrow = len([1 for k, _ in events if k == 'rethrow'])
+    st['rethrows'] = n_rethrow
+    if not ok_type and T0 is KeyError and n_rethrow >= 2:
+        out['fails'].append({'what': 'exception type: KeyError raised below %d nested malt.convert wrappers reaches the caller as %s'
+                                     % (n_rethrow, c['type_name']), 'cls': 'keyerror_rewritten_twice', 'oracle': 'type', 'facts': list(facts)})
+    elif not ok_type:
         cls = 'inherits_builtin_init' if (facts[1] and not facts[4] and facts[5] != 'Exception' and facts[5] in PLAIN_MESSAGE_BUILTINS) else None
         out['fails'].append({'what': 'exception type: original %s (takes a plain message, no initialiser of its own: %s) re-raised as %s'
                                      % (o['type_name'], want, c['type_name']), 'cls': cls, 'oracle': 'type', 'facts': list(facts)})
@@ -491,20 +589,21 @@ def _analyse(built, path, obs, out, want_corr):
         keys = set((k.filename, k.lineno) for k in sc['map'])
         levels.append({'gen_file': gen, 'keys': keys, 'tb': sc['tb'], 'full_tb': sc['full_tb'], 'map': sc['map'],
                        'conv_file': sc['conv_file'], 'result': sc['result']})
-    pyc = py_classes(levels)
+    all_gen = [cv['file'] for cv in convs]
+    pyc = py_classes(levels, set(all_gen))
     if probs:
-        out['fails'].append({'what': 'translated stack: ' + '; '.join(probs), 'cls': 'PENDING-STACK', 'oracle': 'stack',
-                             'py_classes': pyc})
+        out['fails'].append({'what': 'translated stack: ' + '; '.join(probs),
+                             'cls': 'wrapped_entity_origin_shift' if wrapped_path else 'PENDING-STACK', 'oracle': 'stack', 'py_classes': pyc})
     # class request (evaluated by the Lean driver)
     creq = []
     for l in levels:
         locs = set((f[0], f[1]) for f in l['tb'])
         creq.append([l['gen_file'] or '?', map_sx(l['map'], locs), [frame_sx(f) for f in l['tb']]])
-    out['class_req'] = 'c12.classes ' + sexp(creq)
+    out['class_req'] = 'c12.classes %s %s' % (sexp(creq), sexp(all_gen))
     out['py_classes'] = pyc
     # the hypotheses and the conclusion of C12_stack_partial on this recorded run (evaluated by the Lean driver)
     conv_units = [u for u in units if u['conv']]
-    if levels and len(conv_units) == len(levels) and all(l['gen_file'] for l in levels):
+    if levels and len(conv_units) == len(levels) and all(l['gen_file'] for l in levels) and not built.get('wraps') and not wrapped_path:
         lv = []
         for l, u in zip(reversed(levels), conv_units):
             fn, line = u['frames'][-1]
@@ -513,6 +612,7 @@ def _analyse(built, path, obs, out, want_corr):
         out['check_req'] = 'c12.check %s %s %s %s %s' % (sexp(levels[0]['conv_file']), sexp(path), sexp(lv),
                                                         sexp([fi_sx(fi) for fi in c['stack']]), sexp([[a, b] for a, b in U0]))
     out['stack_ok'] = not probs
+    out['wrapped_entity_on_path'] = wrapped_path
 
     # ---------------- O6: source maps ----------------
     for cv in convs:
@@ -576,7 +676,8 @@ def _analyse(built, path, obs, out, want_corr):
         if missing:
             bad.append('original statements on lines %s of %s are the origin of no generated statement' % (missing, root.split('@')[0]))
         for m in bad[:4]:
-            out['fails'].append({'what': 'source map of %s: %s' % (root.split('@')[0], m), 'cls': None, 'oracle': 'srcmap'})
+            out['fails'].append({'what': 'source map of %s: %s' % (root.split('@')[0], m),
+                                 'cls': 'wrapped_entity_origin_shift' if wrapped_path else None, 'oracle': 'srcmap'})
         if want_corr:
             files, origins, items = items_request(pairs)
             out['corr'].append(('srcmap', 'c12.srcmap %s %s %s' % (sexp(files), sexp(origins), sexp(items)),
@@ -600,5 +701,22 @@ def _analyse(built, path, obs, out, want_corr):
         out['corr'].append(('message', 'c12.message %s %s' % (sexp([fi_sx(fi) for fi in c['stack']]), sexp(c['cause_message'])),
                             sexp(c['md'].get_message().split('\n'))))
         f = facts
-        out['corr'].append(('create', 'c12.create ' + sexp([f[0], f[1], f[2], f[3], f[4], f[5]]), kind))
+        first = next((ev['type'] for k, ev in events if k == 'rethrow'), None)
+        first_kind = kind if first is None else kind_of_type(T0, first)
+        out['corr'].append(('create', 'c12.create ' + sexp([f[0], f[1], f[2], f[3], f[4], f[5]]), first_kind))
+        if n_rethrow >= 1:
+            T1 = c['type']
+            from malt.pyct import errors as _errs
+            malt_errs = (_errs.PyCTError, api.AutoGraphError, api.ConversionError, api.StagingError)
+            out['corr'].append(('rewrites', 'c12.rewrites %s %d' % (sexp([f[0], f[1], f[2], f[3], f[4], f[5]]), n_rethrow),
+                                sexp([T1.__name__, any(T1 is m for m in malt_errs)])))
+        evs = []
+        for k, ev in events:
+            if k == 'rethrow':
+                evs.append('r')
+            else:
+                locs = set((fr[0], fr[1]) for fr in ev.get('full_tb', []))
+                evs.append(['a', map_sx(ev['map'], locs) if ev.get('map') is not None else [], [frame_sx(fr) for fr in ev.get('full_tb', [])]])
+        out['corr'].append(('events', 'c12.events %s %s %s %s' % (sexp(conv_file), sexp(o['type_name']), sexp(o['str']), sexp(evs)),
+                            sexp([[fi_sx(fi) for fi in c['stack']], c['cause_message'], hasattr(c['exc'], 'ag_pass_through')])))
     return out
